@@ -116,6 +116,19 @@ def prefetch(combos):
     return dict(zip(todo, ex.map(lambda c: cache_limits(*c), todo)))
 
 
+# settings that describe the scratch start-up itself (paths, identity, plugins) and must not be carried into a harness
+NOT_TRANSFERABLE = ('CONF_DIR', 'STORAGE_DIR', 'LOCAL_DATA_DIR', 'LOG_DIR', 'PID_DIR', 'WHITELISTS_DIR', 'pidfile', 'program', 'instance',
+                    'DATABASE', 'whitelist', 'blacklist', 'relay-rules', 'aggregation-rules', 'rewrite-rules', 'ENABLE_TAGS', 'USER')
+
+
+def full_settings(program, base, override=None, instance=None, environ=None):
+  """Every setting as the daemon's start-up leaves it (incl. keys a harness does not know about), minus the ones that
+  describe the scratch start-up itself."""
+  r = dict(effective(program, base, override, instance, keys=['*'], environ=environ))
+  r.pop(ENV_KEY, None)
+  return {k: v for k, v in r.items() if k not in NOT_TRANSFERABLE and v != MISSING}
+
+
 def apply_cache_limits(settings, variant='base'):
   """Configure settings[MAX_CACHE_SIZE, USE_FLOW_CONTROL] (already set to the *wanted* values) and the derived
   limits exactly as the daemon's start-up would have left them."""
@@ -217,11 +230,19 @@ def _child():
     with contextlib.redirect_stdout(io.StringIO()):
       options.postOptions()
     out = {}
-    for k in req['keys']:
+    keys = list(req['keys'])
+    if keys == ['*']:
+      # everything the start-up left in the settings object (dict entries and instance attributes)
+      keys = sorted(set(list(settings.keys()) + list(vars(settings).keys())))
+    for k in keys:
       try:
-        out[k] = _enc(getattr(settings, k))
+        v = _enc(getattr(settings, k))
       except (KeyError, AttributeError):
-        out[k] = MISSING
+        v = MISSING
+      if isinstance(v, (str, int, float, bool)) or v is None:
+        out[k] = v
+      elif isinstance(v, (list, tuple)) and all(isinstance(x, (str, int, float, bool)) for x in v):
+        out[k] = list(v)
     out[ENV_KEY] = sorted(k for k in consulted if isinstance(k, str))
     os.environ = real_environ
     print('RESULT ' + json.dumps(out))
